@@ -106,7 +106,7 @@ PROPS.update({
     "C09": _e2("TestVerifC09", "Generated callback subsets, OnConnect durations, data/close timing and schedules; order invariants judged on the event log.",
                "scenario = subset of OnPrepare/OnConnect/OnRequest/OnDisconnect x OnConnect yields/read/close x peer writes/close x optional closer; non-trivial = the peer's write or close fell within 8 steps of registration or of an OnConnect start/end; distinct = scenario + event sequence"),
     "C07": _e2("TestVerifC07", "Generated read sequences, timeout modes, chunkings around the n-th byte, timer expiry as a scheduling choice (the real timer is fired), peer/user close, over generated schedules; outcome judged against the order of data, clock and close events; 'blocked for ever' is exact (reader parked at quiescence).",
-               "scenario = 1-4 Reader calls (Next/Peek/Skip/ReadBinary/Slice/Read/ReadByte) x {no timeout, SetReadTimeout, future deadline, past deadline} x peer chunks around the needed bytes x peer close/shutdown x user close x 0-3 timer firings x init/NewFDConnection; non-trivial = during one call at least two of {data, clock, peer close, user close} happened, or a timed call follows a timed-out call; distinct = scenario + event sequence"),
+               "scenario = 1-4 Reader calls (Next/Peek/Skip/ReadBinary/Slice/Read/ReadByte/Until - Until untimed only, its delimiter taken from the stream) x {no timeout, SetReadTimeout, future deadline, past deadline} x peer chunks around the needed bytes x peer close/shutdown x user close x 0-3 timer firings x init/NewFDConnection; non-trivial = during one call at least two of {data, clock, peer close, user close} happened, or a timed call follows a timed-out call; distinct = scenario + event sequence"),
     "C08": _e2("TestVerifC08", "Generated payloads relative to a tiny SO_SNDBUF, writer API mixes, peer drain scripts, write timeouts fired as scheduling choices, closes and a concurrent Flush or Write (which must be rejected without leaving a byte behind), over generated schedules; 'nil => kernel has every submitted byte' is checked with SIOCINQ on the peer end at the moment Flush returns.",
                "scenario = 1-3 flushes (Malloc+Flush / Write / WriteBinary nocopy / mixed / many pieces / Append of a buffer built elsewhere / Malloc+MallocAck) of 1..12xSO_SNDBUF bytes x {no timeout, write timeout, deadline} x peer drain script x peer close x user close x concurrent pure Flush or concurrent Write of 1-300 own bytes x 0-2 timer firings; non-trivial = the flusher actually parked waiting for the poller; distinct = scenario + number of steps",
                quick=1500, thorough=30000),
